@@ -125,7 +125,7 @@ func (ex *Exec) call(f *Frame, st *State, x *ssa.Call, b *ssa.BasicBlock, i int,
 				}
 			}
 			t, err := ec.formula(c.Src)
-			if err != nil && c.Optional && (strings.Contains(err.Error(), "unwrap:") || strings.Contains(err.Error(), "unknown identifier")) {
+			if err != nil && c.Optional {
 				continue
 			}
 			if err != nil {
@@ -345,44 +345,50 @@ func (ex *Exec) applyContract(f *Frame, st *State, x ssa.Instruction, con *Contr
 		vals = append(vals, rv)
 	}
 	bindResults(vars, sig, vals)
-	// ghost updates: field(target) := value, value evaluated in the pre-state
-	for _, g := range con.GhostSets {
+	// ghost updates: field(target) := value; "ghostset": value evaluated in the
+	// pre-state, applied before the ensures; "ghostpost": in the post-state, after
+	applyGhost := func(g Clause) {
 		lhs, rhs, ok := strings.Cut(g.Src, ":=")
 		if !ok {
 			ex.aborted = fmt.Sprintf("contract error (%s): ghostset needs :=", g.Line)
-			return vals
+			return
 		}
 		lhs = strings.TrimSpace(lhs)
 		op := strings.Index(lhs, "(")
 		if op < 0 || !strings.HasSuffix(lhs, ")") {
 			ex.aborted = fmt.Sprintf("contract error (%s): ghostset target must be field(expr)", g.Line)
-			return vals
+			return
 		}
 		field, target := lhs[:op], lhs[op+1:len(lhs)-1]
-		func() {
-			defer func() {
-				if r := recover(); r != nil {
-					if ee, ok := r.(exprErr); ok {
-						ex.aborted = fmt.Sprintf("contract error (%s): %s", g.Line, ee.msg)
-						return
-					}
-					panic(r)
+		defer func() {
+			if r := recover(); r != nil {
+				if ee, ok := r.(exprErr); ok {
+					ex.aborted = fmt.Sprintf("contract error (%s): %s", g.Line, ee.msg)
+					return
 				}
-			}()
-			ecPost := ex.calleeCtx(f, st, pre, callee, vars)
-			id := ex.w.fold(st, ecPost.evalSrc(target).V)
-			ecPre := ex.calleeCtx(f, pre, pre, callee, vars)
-			val := ecPre.evalSrc(rhs)
-			var vt string
-			if val.C != nil {
-				vt = ex.w.foldInt(constBV(val.C, 64), 64)
-			} else {
-				vt = ex.w.fold(pre, val.V)
+				panic(r)
 			}
-			ex.w.ghostSet(st, field, id, vt)
 		}()
-		if ex.aborted != "" {
-			return vals
+		ecPost := ex.calleeCtx(f, st, pre, callee, vars)
+		id := ex.w.fold(st, ecPost.evalSrc(target).V)
+		ecVal, vst := ex.calleeCtx(f, pre, pre, callee, vars), pre
+		if g.Post {
+			ecVal, vst = ecPost, st
+		}
+		val := ecVal.evalSrc(rhs)
+		var vt string
+		if val.C != nil {
+			vt = ex.w.foldInt(constBV(val.C, 64), 64)
+		} else {
+			vt = ex.w.fold(vst, val.V)
+		}
+		ex.w.ghostSet(st, field, id, vt)
+	}
+	for _, g := range con.GhostSets {
+		if !g.Post {
+			if applyGhost(g); ex.aborted != "" {
+				return vals
+			}
 		}
 	}
 	ec := ex.calleeCtx(f, st, pre, callee, vars)
@@ -397,6 +403,13 @@ func (ex *Exec) applyContract(f *Frame, st *State, x ssa.Instruction, con *Contr
 			return vals
 		}
 		st.assume(t)
+	}
+	for _, g := range con.GhostSets {
+		if g.Post {
+			if applyGhost(g); ex.aborted != "" {
+				return vals
+			}
+		}
 	}
 	return vals
 }
